@@ -16,7 +16,11 @@ CONFIGS = {
                        Menu={'enter', 'leave', 'instant', 'open', 'do', 'do_volatile', 'raise'}), None),
     ],
 }
-CONFIGS['thorough'] = CONFIGS['quick']
+CONFIGS['thorough'] = CONFIGS['quick'] + [
+    ('contend4', dict(BASE, NRoots=3, MaxActs=3, RootOps=4, TaskOps=0, Menu={'enter', 'leave', 'instant', 'avail'}), None),
+    ('cancel4', dict(BASE, NRoots=1, MaxActs=4, RootOps=6, TaskOps=3,
+                     Menu={'enter', 'leave', 'instant', 'open', 'do', 'cancel'}), 250000),
+]
 INVS = ['NoFault', 'NoForeignSignal', 'RunLive', 'CascadeShape', 'MutualExclusion', 'OwnerConsistent',
         'LockFreeWhenUnused']
 
